@@ -12,10 +12,12 @@ import (
 	"net/http/httptest"
 	"net/url"
 	"os"
+	"runtime"
 	"strconv"
 	"strings"
 	"sync"
 	"testing"
+	"time"
 
 	"github.com/a-h/templ/cmd/templ/generatecmd/proxy"
 	"github.com/andybalholm/brotli"
@@ -214,7 +216,11 @@ func (c Case) shouldModify() bool {
 	return strings.HasPrefix(c.ContentType, "text/html") && !c.HX && !c.SkipMark && (c.Encoding == "" || c.Encoding == "gzip" || c.Encoding == "br")
 }
 
-func decide(c Case) error {
+func decide(c Case) error { return decideOpts(c, false) }
+
+// decideOpts performs one exchange; slow makes the client read the body in small pieces with
+// pauses, so that the response stays in flight while other exchanges run.
+func decideOpts(c Case, slow bool) error {
 	keyMu.Lock()
 	keyN++
 	key := fmt.Sprintf("k%d", keyN)
@@ -232,7 +238,27 @@ func decide(c Case) error {
 	if err != nil {
 		return fmt.Errorf("harness: request failed: %v", err)
 	}
-	got, err := io.ReadAll(res.Body)
+	var got []byte
+	if slow {
+		buf := make([]byte, 4096)
+		for {
+			n, rerr := res.Body.Read(buf)
+			got = append(got, buf[:n]...)
+			if rerr != nil {
+				if rerr != io.EOF {
+					err = rerr
+				}
+				break
+			}
+			if len(got)%(64*1024) < 4096 {
+				time.Sleep(200 * time.Microsecond)
+			} else {
+				runtime.Gosched()
+			}
+		}
+	} else {
+		got, err = io.ReadAll(res.Body)
+	}
 	res.Body.Close()
 	if err != nil {
 		return fmt.Errorf("reading the proxied body failed (Content-Length %q): %v", res.Header.Get("Content-Length"), err)
@@ -487,4 +513,94 @@ func TestReplay(t *testing.T) {
 	for _, r := range ev.RunReplays() {
 		t.Logf("%+v", r)
 	}
+}
+
+// ---------- overlapping exchanges ----------
+
+type ConcCase struct {
+	Cases []Case `json:"cases"`
+	Procs int    `json:"procs"`
+}
+
+var recConc = ev.New("C20", "c20.concurrent",
+	"2..10 generated exchanges run at the same time through one proxy handler, with clients that read slowly (so responses overlap inside the proxy) and GOMAXPROCS 1, 2 or 16; each exchange is judged by the same oracle as c20.proxy (the proxy must not mix or truncate responses that are in flight together). "+
+		"Non-trivial = >=3 overlapping exchanges of which >=2 are rewritten HTML of >64KiB; distinct by case. Schedules are sampled, not enumerated")
+
+func decideConc(cc ConcCase) error {
+	if cc.Procs > 0 {
+		defer runtime.GOMAXPROCS(runtime.GOMAXPROCS(cc.Procs))
+	}
+	errs := make([]error, len(cc.Cases))
+	var wg sync.WaitGroup
+	for i, c := range cc.Cases {
+		wg.Add(1)
+		go func(i int, c Case) {
+			defer wg.Done()
+			errs[i] = decideOpts(c, true)
+		}(i, c)
+	}
+	wg.Wait()
+	for i, err := range errs {
+		if err != nil {
+			return fmt.Errorf("exchange %d of %d overlapping: %v", i, len(cc.Cases), err)
+		}
+	}
+	return nil
+}
+
+func init() {
+	ev.RegisterReplay("c20.concurrent", func(raw json.RawMessage) error {
+		var c ConcCase
+		if err := json.Unmarshal(raw, &c); err != nil {
+			return err
+		}
+		for i := 0; i < 20; i++ {
+			if err := decideConc(c); err != nil {
+				return err
+			}
+		}
+		return nil
+	})
+}
+
+func genCase(t *rapid.T, maxRep int) Case {
+	return Case{
+		Doc:         genDoc.Draw(t, "doc"),
+		Repeat:      rapid.SampledFrom([]int{1, 10, 300, maxRep, maxRep}).Draw(t, "repeat"),
+		ContentType: rapid.SampledFrom([]string{"text/html", "text/html; charset=utf-8", "text/html", "application/json"}).Draw(t, "ct"),
+		Encoding:    rapid.SampledFrom([]string{"", "", "gzip", "br", "deflate"}).Draw(t, "enc"),
+		CSP:         rapid.SampledFrom([]string{"", "script-src 'nonce-abc123'"}).Draw(t, "csp"),
+		HX:          rapid.IntRange(0, 7).Draw(t, "hx") == 0,
+		AcceptEnc:   true,
+		Chunked:     rapid.IntRange(0, 3).Draw(t, "chunked") == 0,
+	}
+}
+
+func TestPropConcurrentExchanges(t *testing.T) {
+	maxRep := ev.Pick(8000, 40000)
+	rapid.Check(t, func(t *rapid.T) {
+		n := rapid.IntRange(2, 10).Draw(t, "n")
+		cc := ConcCase{Procs: rapid.SampledFrom([]int{1, 1, 2, 16}).Draw(t, "procs")}
+		big := 0
+		for i := 0; i < n; i++ {
+			c := genCase(t, maxRep)
+			if c.shouldModify() && len(c.doc()) > 65536 {
+				big++
+			}
+			cc.Cases = append(cc.Cases, c)
+		}
+		recConc.Eval(len(cc.Cases))
+		if n >= 3 && big >= 2 {
+			recConc.NonTrivial(fmt.Sprint(cc), func() any {
+				var out []map[string]any
+				for _, c := range cc.Cases {
+					out = append(out, map[string]any{"class": c.class(), "bytes": len(c.doc()), "encoding": c.Encoding, "chunked": c.Chunked})
+				}
+				return map[string]any{"procs": cc.Procs, "exchanges": out}
+			})
+		}
+		if err := decideConc(cc); err != nil {
+			recConc.Fail(t, cc, "%v", err)
+		}
+	})
 }
